@@ -13,6 +13,10 @@ SPEC = {
         # accepts (C17's engine); "the dispatcher's actual groups agree" is observed by C06's engine on a real dispatcher
         {"name": "config", "pkg": "./config", "search_cases": 8000, "only": ["validate_ok_wellformed", "load_total"]},
         {"name": "group", "pkg": "./group", "search_cases": 8000, "quick_cases": 1500, "timeout_quick": 600},
+        # "the receivers shown by the API, amtool and the dispatcher's actual groups agree": a rejected reload must not switch one of them (C17's engine)
+        {"name": "reload", "pkg": "./reload", "search_cases": 4, "timeout_quick": 400, "timeout_thorough": 900, "timeout_search": 400, "only": ["failed_reload_keeps_running", "failed_reload_keeps_config"]},
+        # a route's matchers hold with the one matcher semantics of C16 (fully anchored regex, missing label = empty string)
+        {"name": "matcher", "pkg": "./matcher", "search_cases": 20000, "quick_cases": 8000, "only": ["matches_spec", "matcherset_spec"]},
     ],
     "rule": "random routing trees (depth <= 4, fan-out <= 4, <= 14 nodes; continue; =, !=, =~, !~; legacy match/match_re; "
             "receiver/group_by (list, [], '...')/timers/labels/time-interval overrides) x 4-8 label sets over 3 label names, through the real "
